@@ -425,6 +425,30 @@ def check_census(root, *, require_owned=False):
                     pos = {id(t): i for i, t in enumerate(root.token_store)}
                 if cid in pos and pos.get(id(o[1].placeholder), -1) > pos[cid]:
                     bad.append(('claimed-before-placeholder', 'an entry of a repeated field sits before the placeholder of that field'))
+    # a leading / trailing comment is directly adjacent to its owner: only one line break and zero-width
+    # placeholders lie in between -- in particular no dedent / indent mark (the documented "same indentation")
+    toks = list(root.token_store)
+    tpos = {id(t): i for i, t in enumerate(toks)}
+    for cid, owners in cen.items():
+        for o in owners:
+            if o[0] not in ('leading', 'trailing') or cid not in tpos:
+                continue
+            m = o[1]
+            try:
+                if o[0] == 'leading':
+                    nxt = next((v for name, kind, v in intro.field_values(m) if v is not None and name != '_leading_comment'), None)
+                    a, b = tpos[cid], tpos[id(nxt.first_token)]
+                else:
+                    prev = [v for name, kind, v in intro.field_values(m) if v is not None and name != '_trailing_comment'][-1]
+                    a, b = tpos[id(prev.last_token)], tpos[cid]
+            except Exception:
+                continue
+            between = toks[a + 1:b]
+            odd = [t for t in between if not (isinstance(t, intro.Placeholder) or isinstance(t, models.Newline))]
+            if odd or sum(1 for t in between if isinstance(t, models.Newline)) != 1:
+                kinds = [type(t).__name__ for t in between]
+                bad.append((f'{o[0]}-comment-not-adjacent' + (':across-dedent-mark' if any(isinstance(t, models.DedentMark) for t in between) else ''),
+                            f'{o[0]} comment of {type(m).__name__} is separated from it by {kinds}'))
     for cid, owners in cen.items():
         if cid not in store_ids:
             bad.append(('owned-comment-not-in-store', f'a slot ({owners[0][0]}) holds a comment that is not in the document store'))
